@@ -102,6 +102,11 @@ func VerifC14NewSession(isClient bool, transport common.TransportProtocol, mtu i
 	s := NewSession(7, isClient, mtu, nil, tp)
 	s.transportProtocol = transport
 	s.forwardStateTo(sessionAttached)
+	if !isClient {
+		// A server session that an application can write to has processed the open session
+		// request (Session.Write on a packet session waits for that).
+		s.forwardStateTo(sessionEstablished)
+	}
 	s.clientUseLowEntropy.Store(clientUsedLowEntropy)
 	return &VerifC14Session{s: s}
 }
